@@ -82,11 +82,13 @@ impl TaskQueue {
 
         trace!("Clearing");
 
-        unsafe {
+        let wakers = unsafe {
             self.with_inner(|inner| {
+                let mut wakers = Vec::new();
+
                 if inner.map.is_empty() {
                     trace!("Map empty, return");
-                    return;
+                    return wakers;
                 }
 
                 inner.hot.head = None;
@@ -97,12 +99,22 @@ impl TaskQueue {
                 for task in inner.map.drain().filter_map(|(_, i)| i.task) {
                     trace!(?task, "Dropping task");
 
-                    task.drop();
+                    wakers.extend(task.drop());
                     task.wait_for_scheduling();
                 }
 
                 debug_assert!(inner.map.is_empty());
+
+                wakers
             })
+        };
+
+        // Wake the `JoinHandle`s of the destroyed tasks, which may be awaited on other
+        // threads, only now that the queue is no longer borrowed: wakers of tasks of this
+        // executor find it gone and do nothing.
+        for waker in wakers {
+            crate::panic_guard!();
+            waker.wake();
         }
     }
 
